@@ -53,7 +53,7 @@ def eq_pairs(rng, n):
 
 
 def generate(rng, tier):
-    n = {"quick": 300, "thorough": 6000, "search": 2000}.get(tier, 300)
+    n = {"quick": 800, "thorough": 6000, "search": 2000}.get(tier, 300)
     cases = []
     for _ in range(n):
         mag = rng.choice([1e-2, 1.0, 100.0, 1e4])
